@@ -263,6 +263,78 @@ Definition gen_carry_boundary (old_facets new_facets : mat nat) (b : list nat) :
   scan_all (map (fun k => nth k old_facets []) (sort_nat b)) slots.'''
 
 
+SIMPLEX = 'skfem/mesh/mesh_simplex.py'
+RDN = ['p, t = self._remove_duplicate_nodes(self.doflocs, self.t)',
+       'm = replace(self, doflocs=p, t=t, _boundaries=None)',
+       'if self._boundaries is None:\n    return m',
+       'newp = np.zeros(self.doflocs.shape[1], dtype=np.int64)',
+       'newp[self.t] = t',
+       'candidates = m.t2f[:, self.f2t[0]]',
+       'match = (self._sort_entities(m.facets)[:, candidates] == self._sort_entities(newp[self.facets])[:, None])'
+       '.all(axis=0)',
+       'newf = candidates[match.argmax(axis=0), np.arange(self.nfacets)]',
+       'boundaries = {}',
+       'for name, ixs in self._boundaries.items():\n    if isinstance(ixs, OrientedBoundary):\n'
+       '        ori = m.f2t[1, newf[ixs]] == self.f2t[ixs.ori, ixs]\n'
+       '        boundaries[name] = OrientedBoundary(newf[ixs], ori)\n    else:\n'
+       '        boundaries[name] = np.unique(newf[ixs])',
+       'return replace(m, _boundaries=boundaries)']
+ORIENTED = ['flip = np.nonzero(self.orientation() == -1)[0].astype(np.int32)', 't = self.t.copy()', 't0 = t[0, flip]',
+            't1 = t[1, flip]', 't[0, flip] = t1', 't[1, flip] = t0', 'return replace(self, t=t, sort_t=False)']
+TRACE = ['facets = self.normalize_facets(facets)', 'p, t, _ = self._reix(self.facets[:, facets])',
+         'return ((Mesh if mtype is None else mtype)(project(p) if project is not None else p, t), facets)']
+
+
+def translate_misc():
+    """remove_duplicate_nodes (boundary remapping), morphed, oriented, trace"""
+    tree = t2.parse(MESH)
+    rdn = [t2.src(s) for s in _body(t2.find_def(tree, 'remove_duplicate_nodes', 'Mesh'))]
+    if rdn != RDN:
+        raise TranslateError('remove_duplicate_nodes: ' + repr(rdn))
+    tr = [t2.src(s) for s in _body(t2.find_def(tree, 'trace', 'Mesh'))]
+    if tr != TRACE:
+        raise TranslateError('trace: ' + repr(tr))
+    ori = [t2.src(s) for s in _body(t2.find_def(t2.parse(SIMPLEX), 'oriented', 'MeshSimplex'))]
+    if ori != ORIENTED:
+        raise TranslateError('oriented: ' + repr(ori))
+    # morphed: which array do the coordinate functions see?
+    mo = _body(t2.find_def(tree, 'morphed', 'Mesh'))
+    if len(mo) != 3 or t2.src(mo[0]) != 'p = self.p.copy()' or t2.src(mo[2]) != 'return replace(self, doflocs=p)':
+        raise TranslateError('morphed: statements ' + repr([t2.src(x) for x in mo]))
+    loop = mo[1]
+    if not (isinstance(loop, ast.For) and t2.src(loop.target) == '(i, arg)' and t2.src(loop.iter) == 'enumerate(args)'
+            and not loop.orelse and len(loop.body) == 2 and t2.src(loop.body[0]) == 'if arg is None:\n    continue'):
+        raise TranslateError('morphed: loop ' + t2.src(loop))
+    st = loop.body[1]
+    if not (isinstance(st, ast.Assign) and t2.src(st.targets[0]) == 'p[i]' and isinstance(st.value, ast.Call)
+            and t2.src(st.value.func) == 'arg' and len(st.value.args) == 1 and not st.value.keywords):
+        raise TranslateError('morphed: store ' + t2.src(st))
+    seen = t2.src(st.value.args[0])
+    if seen == 'self.p':
+        step = 'morph_step p'
+    elif seen == 'p':
+        step = 'morph_step_seen'
+    else:
+        raise TranslateError('morphed: argument of the coordinate function: ' + seen)
+    return f'''(* Mesh.remove_duplicate_nodes, remapping of the named boundaries *)
+Definition gen_remap_newp (npts : nat) (t t' : mat nat) : list nat :=
+  scatter (concat t) (concat t') (repeat 0 npts).                                          (* newp = zeros; newp[self.t] = t *)
+Definition gen_remap_newf (canon : list nat -> list nat) (nslots : nat) (newp : list nat) (F F' t2f' : mat nat)
+    (f2t0 : list nat) (f : nat) : nat :=
+  let candidates s := nth (nth f f2t0 0) (nth s t2f' []) 0 in                               (* m.t2f[:, self.f2t[0]] *)
+  let matched s := nats_same (canon (nth (candidates s) F' [])) (canon (map (fun v => nth v newp 0) (nth f F []))) in
+  let s := first_true matched nslots 0 in                                                  (* match.argmax(axis=0) *)
+  candidates (if s <? nslots then s else 0).
+Definition gen_remap_tag := remap_tag.   (* np.unique(newf[ixs]) / OrientedBoundary(newf[ixs], m.f2t[1, newf[ixs]] == self.f2t[ixs.ori, ixs]) *)
+(* Mesh.morphed: p[i] = arg({seen}) *)
+Definition gen_morphed_rows {{R}} (p : list R) (args : list (option (list R -> R))) : list R :=
+  fst (fold_left ({step}) args (p, 0)).
+(* MeshSimplex.oriented *)
+Definition gen_oriented_t (flip : list bool) (t : mat nat) : mat nat := swap_rows01 flip t.
+(* Mesh.trace: self._reix(self.facets[:, facets]) *)
+Definition gen_trace_ix (Frows : mat nat) (facets : list nat) : mat nat := take_cols 0 Frows facets.'''
+
+
 HEADER = '''(* GENERATED by vlib/c18_translate.py from skfem/mesh/mesh.py, mesh_quad_1.py, mesh_hex_1.py, mesh_wedge_1.py,
    refdom.py — do not edit *)
 From Coq Require Import List Arith Bool ZArith.
@@ -276,7 +348,8 @@ def translate():
     errors, parts = [], [HEADER]
     for name, fn in (('mesh_quad_1.py: to_meshtri', translate_quad), ('mesh_hex_1.py / mesh_wedge_1.py: to_meshtet, refdom', translate_tets),
                      ('mesh.py: _reix, restrict, remove_elements, remove_unused_nodes', translate_restrict),
-                     ('mesh.py: _remove_duplicate_nodes, __add__; mesh_quad_1.py: boundary carry-over', translate_join)):
+                     ('mesh.py: _remove_duplicate_nodes, __add__; mesh_quad_1.py: boundary carry-over', translate_join),
+                     ('mesh.py: remove_duplicate_nodes, morphed, trace; mesh_simplex.py: oriented', translate_misc)):
         try:
             parts.append(fn())
         except TranslateError as e:
